@@ -28,8 +28,8 @@ def gen(rng, tier):
         c["kind"] += "+concurrent"
         cases.append(c)
     # many members bringing a load term to the same two equations (a hub), solved several times over
-    hub = G.gen_hub(rng, 96 if tier == "quick" else 192)
-    for k in range(6 if tier == "quick" else 30):
+    hub = G.gen_hub(rng, 40 if tier == "quick" else 64)
+    for k in range(12 if tier == "quick" else 40):
         cases.append(core.case_from_struct(hub, Weight=False, Solve=True, Assemble=True, Error="1e-4"))
     return cases
 
